@@ -233,6 +233,18 @@ addenda12 = {'C07': ' Longer node-pool trim scenarios: eight bursts of 4-9 value
 for k, v in addenda12.items():
     e = checks[k]
     checks[k] = (e[0], e[1], e[2] + v, e[3], e[4])
+addenda13 = {'C02': ' Values of defined numeric types (time.Duration, named int32 / float64 / uint8 types; negative, huge, NaN) are unsupported sources.',
+ 'C03': ' The groups returned by SplitEvery are written into and the input re-read.',
+ 'C04': ' Concat with another stream\'s own slice (as user code passes it), not a copy.',
+ 'C07': ' An unbuffered ChannelQueue whose producer is parked in Put: a Poll gets the value.',
+ 'C08': ' A ConcurrentQueue / ConcurrentStack wrapped a second time, callers on both handles.',
+ 'C09': ' InvokeWithTimeout with a real and a zero timeout on a full queue; SetCallee right after Invoke while the invocation is queued.',
+ 'C17': ' A response that announces more bytes than arrive (the connection drops after a complete document).',
+ 'C19': ' SortOrdered* over float lists with +0 and -0: the zeroes keep their input order in both directions.',
+ 'C20': ' A Trampoline step that returns an error together with done.'}
+for k, v in addenda13.items():
+    e = checks[k]
+    checks[k] = (e[0], e[1], e[2] + v, e[3], e[4])
 
 not_yet = "check not built yet in this round (see DESIGN.md §9 build order); no claim made"
 
